@@ -5,6 +5,7 @@ import (
 	"encoding/json"
 	"fmt"
 	"strings"
+	"unicode/utf8"
 )
 
 type Mode byte
@@ -103,6 +104,10 @@ func (r *Rule) Match(raw []byte) bool {
 }
 
 func (r *Rule) match(raw []byte) bool {
+	if r.CaseInsensitive {
+		return r.matchCaseInsensitive(raw)
+	}
+
 	if len(raw) < r.minValueSize {
 		return false
 	}
@@ -111,9 +116,6 @@ func (r *Rule) match(raw []byte) bool {
 
 	if r.Mode == ModeContains {
 		data = raw
-		if r.CaseInsensitive {
-			data = bytes.ToLower(data)
-		}
 		for i := range r.Values {
 			if len(data) < len(r.Values[i]) {
 				continue
@@ -137,10 +139,6 @@ func (r *Rule) match(raw []byte) bool {
 		}
 	}
 
-	if r.CaseInsensitive {
-		cutData = bytes.ToLower(cutData)
-	}
-
 	for _, value := range r.Values {
 		if len(cutData) < len(value) {
 			continue
@@ -154,6 +152,49 @@ func (r *Rule) match(raw []byte) bool {
 
 		if bytes.Equal(data, []byte(value)) {
 			return true
+		}
+	}
+
+	return false
+}
+
+// matchCaseInsensitive lowers the data before any length arithmetic: lowering can
+// change the byte length of a character (e.g. "İ" -> "i", "K" -> "k"), so the sizes
+// of the raw data and of the lowered rule values are not comparable.
+func (r *Rule) matchCaseInsensitive(raw []byte) bool {
+	data := raw
+	if r.Mode != ModeContains {
+		// a lowered value of N bytes is made of at most N characters and a character
+		// takes at most utf8.UTFMax raw bytes; one more character of slack because
+		// cutting in the middle of a character spoils the outer end of the window
+		window := (r.maxValueSize + 1) * utf8.UTFMax
+		if len(raw) > window {
+			if r.Mode == ModePrefix {
+				data = raw[:window]
+			} else {
+				data = raw[len(raw)-window:]
+			}
+		}
+	}
+	data = bytes.ToLower(data)
+
+	for _, value := range r.Values {
+		if len(data) < len(value) {
+			continue
+		}
+		switch r.Mode {
+		case ModeContains:
+			if bytes.Contains(data, []byte(value)) {
+				return true
+			}
+		case ModePrefix:
+			if string(data[:len(value)]) == value {
+				return true
+			}
+		case ModeSuffix:
+			if string(data[len(data)-len(value):]) == value {
+				return true
+			}
 		}
 	}
 
